@@ -1,6 +1,7 @@
 //! Verification harness for rcore-os/virtio-drivers (property-based testing / fuzzing).
 #![allow(clippy::too_many_arguments, clippy::type_complexity, clippy::new_without_default)]
 
+pub mod allocguard;
 pub mod bus;
 pub mod dev;
 pub mod devq;
